@@ -1075,6 +1075,8 @@ def _named_values(fn, self_unstable=None):
                     if isinstance(x, ast.Name):
                         stores.setdefault(x.id, []).append(x)
                         stores.setdefault(x.id, []).append(x)     # loop targets are re-bound every iteration
+        loop_targets = {x.id for n in _walk_local(fn) if isinstance(n, (ast.For, ast.AsyncFor)) for x in ast.walk(n.target) if isinstance(x, ast.Name)}
+        loop_targets |= {x.id for n in _walk_local(fn) if isinstance(n, (ast.While, ast.For, ast.AsyncFor)) for s_ in n.body for x in ast.walk(s_) if isinstance(x, ast.Name) and isinstance(x.ctx, ast.Store)}
         never_stored = {p for p in params if p not in stores} | {"self"}
         free = {k for k in loads if k not in stores and k not in params}      # globals / builtins / enclosing names
         changed = False
@@ -1090,7 +1092,10 @@ def _named_values(fn, self_unstable=None):
                     continue
                 if isinstance(st.value, (ast.Constant,)) and not isinstance(st.value.value, (str, bytes, int)):
                     continue
-                stable = never_stored | free
+                # operands: parameters that are never rebound, globals, and locals bound exactly once by an earlier plain assignment
+                single_before = {k for k, v_ in stores.items() if len(v_) == 1 and isinstance(v_[0], ast.Name) and k != v and
+                                 (getattr(v_[0], "lineno", 10**9), getattr(v_[0], "col_offset", 0)) < (st.lineno, st.col_offset) and k not in loop_targets}
+                stable = never_stored | free | single_before
                 # mutation of the operands is judged for the statements between the definition and its last use (below)
                 if not _stable_expr(st.value, stable, set(), set(), self_unstable):
                     continue
@@ -1262,6 +1267,242 @@ def _merge_nested_ifs(fn):
     return n_done
 
 
+# ------------------------------------------------------------------ N8 context managers written for one purpose -> try/finally
+
+def _is_cm_decorator(d):
+    dd = _dotted(d)
+    return dd in ("contextmanager", "contextlib.contextmanager")
+
+
+def _new_units(modname, tree, inv):
+    """new (non-inventory) module-level functions and classes of this module: {name: node}"""
+    out = {}
+    for n in tree.body:
+        if isinstance(n, FUNC) and (inv is None or f"{modname}:{n.name}" not in inv):
+            out[n.name] = n
+        elif isinstance(n, ast.ClassDef):
+            known = inv is not None and any(k.startswith(f"{modname}:{n.name}.") for k in inv)
+            if not known:
+                out[n.name] = n
+    return out
+
+
+def _cm_rewrite(item, body, units, klass_of_self):
+    """-> list of statements equivalent to `with <item>: body`, or None when the manager is not one of the understood shapes"""
+    e, var = item.context_expr, item.optional_vars
+    if not isinstance(e, ast.Call):
+        return None
+    d = _dotted(e.func)
+    # contextlib.suppress(E, ...)
+    if d in ("suppress", "contextlib.suppress") and e.args and not e.keywords and var is None:
+        typ = e.args[0] if len(e.args) == 1 else ast.Tuple(elts=list(e.args), ctx=ast.Load())
+        return [ast.Try(body=body, handlers=[ast.ExceptHandler(type=typ, name=None, body=[ast.Pass()])], orelse=[], finalbody=[])]
+    name = e.func.id if isinstance(e.func, ast.Name) else (e.func.attr if isinstance(e.func, ast.Attribute) and isinstance(e.func.value, ast.Name) and e.func.value.id in ("self", klass_of_self or "") else None)
+    unit = units.get(name) if name else None
+    if unit is None:
+        return None
+    try:
+        if isinstance(unit, FUNC) and any(_is_cm_decorator(x) for x in unit.decorator_list) and not isinstance(unit, ast.AsyncFunctionDef):
+            return _cm_generator(unit, e, var, body)
+        if isinstance(unit, ast.ClassDef):
+            return _cm_class(unit, e, var, body)
+    except _NotInlinable:
+        return None
+    return None
+
+
+def _cm_generator(fn, call, var, body):
+    stmts = _helper_body(fn)
+    prefix, mapping = _bind(fn, call, False)
+    stmts = [_Renamer(mapping).visit(_clone(s_)) for s_ in stmts]
+    yields = [n for s_ in stmts for n in _walk_local(s_) if isinstance(n, (ast.Yield, ast.YieldFrom))]
+    if len(yields) != 1 or isinstance(yields[0], ast.YieldFrom):
+        raise _NotInlinable("not exactly one yield")
+
+    def bind_var(yexpr):
+        if var is None:
+            return []
+        val = yexpr.value if yexpr.value is not None else ast.Constant(value=None)
+        return [ast.Assign(targets=[_clone(var)], value=val, lineno=call.lineno)]
+    def splice(stmts_):
+        out_ = []
+        for k, st in enumerate(stmts_):
+            if isinstance(st, ast.Expr) and st.value is yields[0]:
+                # PRE; yield; POST  (POST only when the body completes normally)
+                return out_ + bind_var(yields[0]) + body + stmts_[k + 1:]
+            if isinstance(st, ast.Try) and len(st.body) >= 1 and isinstance(st.body[-1], ast.Expr) and st.body[-1].value is yields[0] and not st.orelse:
+                pre_in_try = st.body[:-1]
+                new = ast.Try(body=pre_in_try + bind_var(yields[0]) + body, handlers=st.handlers, orelse=[], finalbody=st.finalbody)
+                return out_ + [new] + stmts_[k + 1:]
+            if isinstance(st, ast.With) and any(n is yields[0] for s2 in st.body for n in ast.walk(s2)):
+                # the manager holds another one open around the yield: the body runs inside it
+                new = ast.With(items=st.items, body=splice(st.body))
+                return out_ + [new] + stmts_[k + 1:]
+            if any(n is yields[0] for n in ast.walk(st)):
+                raise _NotInlinable("yield in an unsupported position")
+            out_.append(st)
+        raise _NotInlinable("yield not found at statement level")
+    return list(prefix) + splice(stmts)
+
+
+def _cm_class(cls, call, var, body):
+    meths = {m.name: m for m in cls.body if isinstance(m, FUNC)}
+    if cls.bases or "__enter__" not in meths or "__exit__" not in meths or any(isinstance(m, ast.AsyncFunctionDef) for m in meths.values()):
+        raise _NotInlinable("not a plain context manager class")
+    suffix = "__" + cls.name.lstrip("_")
+    fields = {}
+    out = []
+    if "__init__" in meths:
+        init = meths["__init__"]
+        prefix, mapping = _bind(init, call, True)
+        out += prefix
+        for st in _helper_body(init):
+            if not (isinstance(st, ast.Assign) and len(st.targets) == 1 and isinstance(st.targets[0], ast.Attribute) and isinstance(st.targets[0].value, ast.Name) and st.targets[0].value.id == "self"):
+                raise _NotInlinable("__init__ does more than store attributes")
+            nm = st.targets[0].attr + suffix
+            fields[st.targets[0].attr] = nm
+            out.append(ast.Assign(targets=[ast.Name(id=nm, ctx=ast.Store())], value=_Renamer(mapping).visit(_clone(st.value)), lineno=call.lineno))
+    elif call.args or call.keywords:
+        raise _NotInlinable("arguments without __init__")
+
+    class SelfFields(ast.NodeTransformer):
+        def visit_Attribute(self, node):
+            if isinstance(node.value, ast.Name) and node.value.id == "self":
+                if node.attr in fields:
+                    return ast.copy_location(ast.Name(id=fields[node.attr], ctx=node.ctx), node)
+                raise _NotInlinable("self attribute outside __init__")
+            self.generic_visit(node)
+            return node
+
+        def visit_Name(self, node):
+            if node.id == "self":
+                raise _NotInlinable("self escapes")
+            return node
+    enter, exit_ = meths["__enter__"], meths["__exit__"]
+    if len(enter.args.args) != 1 or len(exit_.args.args) != 4:
+        raise _NotInlinable("signature")
+    exc_params = {a.arg for a in exit_.args.args[1:]}
+    ebody = [_clone(s_) for s_ in _helper_body(exit_)]
+    if any(isinstance(n, ast.Name) and n.id in exc_params for s_ in ebody for n in ast.walk(s_)):
+        raise _NotInlinable("__exit__ looks at the exception")
+    # __exit__ must end by returning False / None (exceptions propagate)
+    if ebody and isinstance(ebody[-1], ast.Return):
+        r = ebody.pop()
+        if r.value is not None and not (isinstance(r.value, ast.Constant) and r.value.value in (False, None)):
+            raise _NotInlinable("__exit__ may swallow")
+    if any(isinstance(n, ast.Return) for s_ in ebody for n in _walk_local(s_)):
+        raise _NotInlinable("return inside __exit__")
+    nbody = [_clone(s_) for s_ in _helper_body(enter)]
+    ret = None
+    if nbody and isinstance(nbody[-1], ast.Return):
+        ret = nbody.pop().value
+    if any(isinstance(n, ast.Return) for s_ in nbody for n in _walk_local(s_)):
+        raise _NotInlinable("return inside __enter__")
+    if var is not None:
+        if ret is None or (isinstance(ret, ast.Name) and ret.id == "self"):
+            raise _NotInlinable("the manager object itself is bound")
+        nbody.append(ast.Assign(targets=[_clone(var)], value=ret, lineno=call.lineno))
+    sf = SelfFields()
+    nbody = [sf.visit(s_) for s_ in nbody]
+    ebody = [sf.visit(s_) for s_ in ebody]
+    return out + nbody + [ast.Try(body=body, handlers=[], orelse=[], finalbody=ebody or [ast.Pass()])]
+
+
+def _rewrite_context_managers(modname, tree, inv):
+    units = _new_units(modname, tree, inv)
+    n_done = 0
+
+    def visit_blocks(fn, klass):
+        nonlocal n_done
+        for blk in _blocks(fn):
+            i = 0
+            while i < len(blk):
+                st = blk[i]
+                if isinstance(st, ast.With) and len(st.items) == 1:
+                    new = _cm_rewrite(st.items[0], st.body, units, klass)
+                    if new is not None:
+                        for x in new:
+                            ast.copy_location(x, st)
+                            ast.fix_missing_locations(x)
+                        blk[i:i + 1] = new
+                        n_done += 1
+                        continue
+                i += 1
+    def all_funcs(body, klass):
+        for n in body:
+            if isinstance(n, FUNC):
+                yield n, klass
+                for c in ast.walk(n):
+                    if isinstance(c, FUNC) and c is not n:
+                        yield c, klass
+            elif isinstance(n, ast.ClassDef):
+                yield from all_funcs(n.body, n.name)
+    for f_, klass in list(all_funcs(tree.body, None)):
+        if any(f_ is u or f_ in ast.walk(u) for u in units.values() if isinstance(u, (ast.ClassDef,) + FUNC) and (isinstance(u, ast.ClassDef) or any(_is_cm_decorator(d) for d in u.decorator_list))):
+            continue        # not inside the managers themselves
+        for _ in range(2):
+            visit_blocks(f_, klass)
+    if n_done:
+        # a manager that is no longer mentioned anywhere has become part of its users
+        for name, unit in units.items():
+            inside = {id(x) for x in ast.walk(unit)}
+            refs = sum(1 for x in ast.walk(tree) if id(x) not in inside and ((isinstance(x, ast.Name) and x.id == name) or (isinstance(x, ast.Attribute) and x.attr == name)))
+            is_cm = (isinstance(unit, FUNC) and any(_is_cm_decorator(d) for d in unit.decorator_list)) or \
+                (isinstance(unit, ast.ClassDef) and any(isinstance(m, FUNC) and m.name == "__exit__" for m in unit.body))
+            if refs == 0 and is_cm and unit in tree.body:
+                tree.body[tree.body.index(unit)] = ast.copy_location(ast.Pass(), unit)
+    return n_done
+
+
+# ------------------------------------------------------------------ N9 module-level constants
+
+def _module_constants(tree):
+    """names bound exactly once, at module level, to an int / str literal (also through `A, B = 0, 1`) and never rebound anywhere"""
+    cands, stores = {}, {}
+    for n in ast.walk(tree):
+        if isinstance(n, ast.Name) and isinstance(n.ctx, (ast.Store, ast.Del)):
+            stores[n.id] = stores.get(n.id, 0) + 1
+        elif isinstance(n, (ast.Global, ast.Nonlocal)):
+            for x in n.names:
+                stores[x] = stores.get(x, 0) + 2
+        elif isinstance(n, ast.arg):
+            stores[n.arg] = stores.get(n.arg, 0) + 2       # shadowed by a parameter somewhere: leave it alone
+    for st in tree.body:
+        if isinstance(st, ast.Assign) and len(st.targets) == 1:
+            t, v = st.targets[0], st.value
+            pairs = []
+            if isinstance(t, ast.Name):
+                pairs = [(t, v)]
+            elif isinstance(t, (ast.Tuple, ast.List)) and isinstance(v, (ast.Tuple, ast.List)) and len(t.elts) == len(v.elts):
+                pairs = list(zip(t.elts, v.elts))
+            for a, b in pairs:
+                if isinstance(a, ast.Name) and isinstance(b, ast.Constant) and isinstance(b.value, (int, str)) and not isinstance(b.value, bool) and a.id.isupper() or \
+                        (isinstance(a, ast.Name) and isinstance(b, ast.Constant) and isinstance(b.value, int) and not isinstance(b.value, bool) and a.id.startswith("_") and a.id[1:].isupper()):
+                    cands[a.id] = b
+    return {k: v for k, v in cands.items() if stores.get(k, 0) == 1}
+
+
+def _propagate_module_constants(tree):
+    consts = _module_constants(tree)
+    if not consts:
+        return 0
+    n_done = 0
+    for fn in ast.walk(tree):
+        if not isinstance(fn, FUNC):
+            continue
+        for parent in ast.walk(fn):
+            for fld, val in ast.iter_fields(parent):
+                if isinstance(val, ast.Name) and isinstance(val.ctx, ast.Load) and val.id in consts:
+                    setattr(parent, fld, ast.copy_location(_clone(consts[val.id]), val))
+                    n_done += 1
+                elif isinstance(val, list):
+                    for k, x in enumerate(val):
+                        if isinstance(x, ast.Name) and isinstance(x.ctx, ast.Load) and x.id in consts:
+                            val[k] = ast.copy_location(_clone(consts[x.id]), x)
+                            n_done += 1
+    return n_done
+
+
 # ------------------------------------------------------------------ N3 conditional expressions at statement level
 
 def _expand_ifexp(fn):
@@ -1293,7 +1534,9 @@ def _expand_ifexp(fn):
 def normalize(modname, tree):
     """in-place; returns statistics"""
     stats = {"inlined": 0, "named_conditions": 0}
+    stats["module_constants"] = _propagate_module_constants(tree)
     inv = inventory()
+    stats["context_managers"] = _rewrite_context_managers(modname, tree, inv)
     if inv is not None:
         stats["inlined"] = _Inliner(modname, tree, inv).run()
     stats["ifexp_expanded"] = 0
